@@ -44,6 +44,7 @@ THEOREMS = [
     "TornadoModel.C40.invExit_step",
     "TornadoModel.C40.exit_only_after_closing",
     "TornadoModel.C40.quiescent_nothing_ready",
+    "TornadoModel.C40.ready_fd_forces_progress",
 ]
 TRUSTED = [
     "atomicity: steps of the model are atomic because the code holds _select_cond there or uses one thread-safe primitive (socket send/recv, select returning, call_soon_threadsafe) — GIL / threading.Condition / asyncio contracts",
@@ -61,7 +62,7 @@ EXHAUSTIVE = {"quick": False, "thorough": False}
 CLAUSES = {
     "at most one select call is in progress": "token_unique, at_most_one_select, assert_never_fails, post_finds_args_empty",
     "every readiness of an fd that stays registered is eventually dispatched on the event-loop thread":
-        "safety form proved: quiescent_nothing_ready (a quiescent system has no registered ready fd), wake_invariant, "
+        "safety form proved: quiescent_nothing_ready / ready_fd_forces_progress (a registered ready fd always leaves a step enabled: no deadlock with work to do), wake_invariant, "
         "waker_always_captured, stale_select_returns, selected_reports_ready; "
         "bounded-rounds liveness under fairness (no_lost_event_goal) tie only: settle-phase oracle Spec.lost on every execution",
     "callbacks never run on the selector thread": "callbacks_on_loop_thread (structural) + thread identity observed in every execution",
